@@ -33,7 +33,7 @@ def corpus():
         "run prop=C16 mode=users conc=3 dur=300 body=2 maxit=20 failevery=3 prerun=1",
         "run prop=C16 mode=constant rate=5/50ms dur=300 conc=3 body=5 failevery=4 cleanupfail=3",
         "run prop=C16 mode=users conc=2 dur=300 body=2 maxit=12 cleanupfail=2 prerun=1",
-    ]
+    ] + __import__("vlib.props._plan", fromlist=["x"]).cli_corpus_for("C16")
 
 
 def gen_map(rng):
@@ -66,6 +66,15 @@ def generate(rng, tier):
     return out
 
 
+def compare(rec):
+    if rec["case"].startswith("cli "):
+        from . import _plan
+        return _plan.cli_compare(rec)
+    if rec["model"] == "-":
+        return None
+    return None if rec["impl"] == rec["model"] else "model=%s impl=%s" % (rec["model"], rec["impl"])
+
+
 def nontrivial_key(rec):
     c = rec["case"]
     if c.startswith("labels"):
@@ -87,7 +96,7 @@ def distribution(recs):
                 ks = [bytes.fromhex(p.split("=")[0]).decode() if p.split("=")[0] != "-" else "" for p in body.split(";")]
                 d["labels_total"] += len(ks)
                 d["prefix_key_pairs"] += sum(1 for a in ks for b in ks if a != b and b.startswith(a))
-        elif c.startswith("run "):
+        elif c.startswith(("run ", "cli ")):
             d["whole_runs"] = d.get("whole_runs", 0) + 1
         elif c.startswith("scn "):
             d["scenario_runs"] += 1
